@@ -205,12 +205,17 @@ var solvers = []solverSpec{
 }
 
 func runSolver(sp solverSpec, dir, id, query string, timeoutS int) (status, out string, secs float64) {
+	return runSolverCtx(context.Background(), sp, dir, id, query, timeoutS)
+}
+
+// runSolverCtx: as runSolver; cancelling parent kills the solver (status "cancelled").
+func runSolverCtx(parent context.Context, sp solverSpec, dir, id, query string, timeoutS int) (status, out string, secs float64) {
 	file := filepath.Join(dir, id+"."+sp.name+".smt2")
 	if err := os.WriteFile(file, []byte(sp.pre+query), 0o644); err != nil {
 		return "error", err.Error(), 0
 	}
 	defer os.Remove(file)
-	ctx, cancel := context.WithTimeout(context.Background(), time.Duration(timeoutS+5)*time.Second)
+	ctx, cancel := context.WithTimeout(parent, time.Duration(timeoutS+5)*time.Second)
 	defer cancel()
 	argv := sp.argv(file, timeoutS)
 	cmd := exec.CommandContext(ctx, argv[0], argv[1:]...)
@@ -227,6 +232,9 @@ func runSolver(sp solverSpec, dir, id, query string, timeoutS int) (status, out 
 		return first, out, secs
 	case "timeout":
 		return "timeout", out, secs
+	}
+	if parent.Err() != nil {
+		return "cancelled", out, secs
 	}
 	if ctx.Err() != nil || strings.Contains(out, "timeout") || strings.Contains(out, "interrupted") {
 		return "timeout", out, secs
@@ -295,15 +303,25 @@ func (r *Runner) Discharge(x *Exec, vc *VC) *Result {
 	if st != "unsat" && st != "sat" && r.TimeoutS > quick {
 		cands = append(cands, solvers[0])
 	}
+	// quick tier: the first definite answer wins and the other solvers are stopped;
+	// thorough tier: every solver is heard (agreement is required)
+	pctx, pcancel := context.WithCancel(context.Background())
+	defer pcancel()
 	for _, sp := range cands {
 		go func(sp solverSpec) {
-			s, o, t := runSolver(sp, r.Dir, id, q, r.TimeoutS)
+			s, o, t := runSolverCtx(pctx, sp, r.Dir, id, q, r.TimeoutS)
 			ch <- one{sp.name, s, o, t}
 		}(sp)
 	}
 	for range cands {
 		o := <-ch
+		if o.st == "cancelled" {
+			continue
+		}
 		res.Tried = append(res.Tried, fmt.Sprintf("%s:%s:%.2fs", o.name, o.st, o.secs))
+		if !r.Thorough && (o.st == "unsat" || o.st == "sat") {
+			pcancel()
+		}
 		res.Seconds += o.secs
 		if o.st == "unsat" || o.st == "sat" {
 			if res.Status == "" || (res.Status != "unsat" && res.Status != "sat") {
